@@ -1,18 +1,30 @@
 #!/bin/bash
-# usage: tools/seeded.sh <seeded-id> [check args...]   -- apply a seeded change to /repo, run demo + checks, undo
+# usage: tools/seeded.sh <seeded-id> [check args...]
+# Apply a seeded change to a scratch copy of /repo's HEAD (under /tmp, removed afterwards; or to /repo
+# itself with APPLY_IN_REPO=1, undone afterwards), run the pinned tests, the author's demo and the owning
+# check(s) (PROPS="C03 C07" to override) against it.
 id=$1; shift
 d=/verif/seeded/$id
 prop=$(python3 -c "import json;print(json.load(open('$d/meta.json'))['property'])")
-cd /repo || exit 9
-if ! git diff --quiet; then echo "REPO DIRTY"; exit 9; fi
-if ! git apply "$d/patch.diff"; then echo "PATCH DOES NOT APPLY"; exit 9; fi
-trap 'git -C /repo checkout -- . ' EXIT
-if [ -z "$SKIP_TESTS" ]; then
-  t=$(/venv/bin/python -m pytest -q -p no:cacheprovider -x 2>&1 | tail -1); echo "tests: $t"
+if [ -n "$APPLY_IN_REPO" ]; then
+  src=/repo
+  cd /repo || exit 9
+  if ! git diff --quiet; then echo "REPO DIRTY"; exit 9; fi
+  if ! git apply "$d/patch.diff"; then echo "PATCH DOES NOT APPLY"; exit 9; fi
+  trap 'git -C /repo checkout -- . ' EXIT
+else
+  src=$(mktemp -d /tmp/ptera-seeded-XXXXXX)
+  trap 'rm -rf "$src"' EXIT
+  git -C /repo archive HEAD | tar -x -C "$src"
+  cd "$src" && git init -q . 2>/dev/null
+  if ! git apply "$d/patch.diff"; then echo "PATCH DOES NOT APPLY"; exit 9; fi
 fi
-(cd /tmp && PYTHONPATH=/repo timeout 120 /venv/bin/python $d/demo.py 2>&1 | tail -2; echo "demo exit: ${PIPESTATUS[0]}")
+if [ -z "$SKIP_TESTS" ]; then
+  t=$(cd "$src" && PYTHONPATH="$src" /venv/bin/python -m pytest -q -p no:cacheprovider -x 2>&1 | tail -1); echo "tests: $t"
+fi
+(cd /tmp && PYTHONPATH="$src" timeout 120 /venv/bin/python $d/demo.py 2>&1 | tail -2; echo "demo exit: ${PIPESTATUS[0]}")
 cd /verif
 for p in ${PROPS:-$prop}; do
-  timeout 1200 ./check $p "$@" 2>&1 | tail -4
+  PTERA_SRC="$src" timeout 1200 ./check $p "$@" 2>&1 | tail -4
   echo "check $p exit: ${PIPESTATUS[0]}"
 done
